@@ -29,7 +29,8 @@ RELS: T.Dict[T.Tuple[str, str], T.List[str]] = {
     ('L', 'C'): ['inc'], ('E', 'C'): ['inc'],
     ('L', 'K'): ['src'], ('E', 'K'): ['src'],                    # K of a header: used like H/src
     ('L', 'L'): ['link_with', 'link_whole'], ('E', 'L'): ['link_with', 'dep_link'],
-    ('K', 'H'): ['input', 'depends'], ('K', 'S'): ['input'], ('K', 'K'): ['input', 'depends'],
+    # depends: the whole producer target | dependsidx: depends: producer[0] (an indexed custom-target output)
+    ('K', 'H'): ['input', 'depends', 'dependsidx'], ('K', 'S'): ['input'], ('K', 'K'): ['input', 'depends', 'dependsidx'],
     ('X', 'E'): ['run'],
     ('K', 'X'): ['input'],
 }
@@ -272,7 +273,7 @@ def render(spec: Spec, placement: str = 'root', odd_names: bool = False, with_te
                 ploc = where(p, pn)
                 ppath = pfx(ploc) + ref(p) + '.' + ext
                 out.append("%s = custom_target('%s', output: '%s.%s', command: [sh, '-c', 'cp \"%s\" \"$0\"', '@OUTPUT@'], depends: %s, depend_files: files('%s.stamp'))"
-                           % (me, me, me, ext, ppath, ref(p), me))
+                           % (me, me, me, ext, ppath, ref(p) + ('[0]' if rel == 'dependsidx' else ''), me))
                 files[d + me + '.stamp'] = 'stamp\n'
         elif n.kind in 'LE':
             incs, decls, terms = [], [], []
